@@ -1204,6 +1204,41 @@ def _lookup_chain(node, what):
     return attr, target, order
 
 
+def _rotation_part(tree, out, spans):
+    """create_rotation_matrix: which element of `pixel_spacing` is the spacing between rows / between columns, the scalar shorthand, the
+    positivity test, the scaling of the columns"""
+    from py2lean import strip_doc
+    fn = find_func(tree, 'create_rotation_matrix')
+    body = strip_doc(fn.body)
+    sp_if = _one((n for n in body if isinstance(n, ast.If) and _src(n.test) == 'isinstance(pixel_spacing, (Sequence, np.ndarray))'),
+                 'create_rotation_matrix: pixel_spacing branch')
+    if not (len(sp_if.body) == 3 and _src(sp_if.body[0]).startswith('if len(pixel_spacing) != 2: raise ValueError(') and len(sp_if.orelse) == 2):
+        raise Unsupported('create_rotation_matrix: pixel_spacing branch changed')
+    idx = {}
+    for st in sp_if.body[1:]:
+        if not (isinstance(st, ast.Assign) and isinstance(st.value, ast.Call) and ast.unparse(st.value.func) == 'float'
+                and isinstance(st.value.args[0], ast.Subscript) and _src(st.value.args[0].value) == 'pixel_spacing'):
+            raise Unsupported(f'create_rotation_matrix: {_src(st)}')
+        idx[ast.unparse(st.targets[0])] = _num(st.value.args[0].slice)
+    if sorted(idx) != ['spacing_between_columns', 'spacing_between_rows']:
+        raise Unsupported(f'create_rotation_matrix: spacings assigned: {sorted(idx)}')
+    if sorted(_src(x) for x in sp_if.orelse) != ['spacing_between_columns = pixel_spacing', 'spacing_between_rows = pixel_spacing']:
+        raise Unsupported('create_rotation_matrix: scalar pixel_spacing is no longer used for both directions')
+    out.append('/-- create_rotation_matrix: index into `pixel_spacing` of (spacing between rows, spacing between columns) -/\n'
+               f'def rotationSpacingIndex : Nat × Nat := ({idx["spacing_between_rows"]}, {idx["spacing_between_columns"]})')
+    spans.append(sp_if)
+    pos = body[body.index(sp_if) + 1]
+    if not (isinstance(pos, ast.If) and isinstance(pos.body[0], ast.Raise) and ast.unparse(pos.body[0].exc.func) == 'ValueError' and not pos.orelse):
+        raise Unsupported('create_rotation_matrix: positivity test')
+    out.append(_scalar_def2(pos.test, 'rotationSpacingRefused', [('spacing_between_rows', 'rat'), ('spacing_between_columns', 'rat')],
+                            'create_rotation_matrix: the pixel spacings it refuses (ValueError)'))
+    spans.append(pos)
+    _expect(body[-2], 'rotation_columns = [c * s for c, s in zip(rotation_columns, spacings)]', 'create_rotation_matrix: scaling')
+    _expect(body[-1], 'return np.column_stack(rotation_columns)', 'create_rotation_matrix: return')
+    _expect(body[0], "if len(image_orientation) != 6: raise ValueError('Argument \"image_orientation\" must have length 6.')", 'create_rotation_matrix')
+    spans += [body[-2], body[-1], body[0]]
+
+
 def _convention_part(tree, out, spans):
     """_transform_affine_to_convention: which convention the flip flags run over, where a target letter is looked up, the opposite for absent
     letters, which arguments of _transform_affine_matrix are passed"""
@@ -1619,6 +1654,7 @@ def _images_part(tree, out, spans):
         spans.append(t_)
     ortho_call('get_closest_patient_orientation', 'closestRequireUnit')
     ortho_call('create_affine_matrix_from_components', 'componentsRequireUnit')
+    _rotation_part(tree, out, spans)
     _convention_part(tree, out, spans)
     # ---- get_image_coordinate_system: the attributes that decide, in the order they are looked at
     fn = find_func(tree, 'get_image_coordinate_system')
